@@ -280,3 +280,23 @@ Section Total.
     - apply IH.
   Qed.
 End Total.
+
+(* C14_more_counts, sparkline: in EVERY frame — whatever table, widths and notes earlier frames
+   left behind — when rows are hidden the line after the table's last active row is the note with
+   the number of rows hidden NOW *)
+Theorem spark_more_rows col uni m rnd fmt rlim clim st a t' tm' off :
+  spark_write_table col uni m rnd fmt rlim clim st a = Ok (t', tm', off) ->
+  (rlim < length (a_rows a))%nat ->
+  nth_error tm' (tw_active t') = Some (more_note col (Z.of_nat (length (skipn rlim (a_rows a))))) /\ off = 1%nat.
+Proof.
+  unfold spark_write_table. cbv zeta. intros E Hl.
+  destruct (spark_rows _ _ _ _ _ _ _ _ _ _ _) as [st2|]; [|discriminate E]. cbn [rbind] in E.
+  replace (Nat.min (length (a_rows a)) rlim) with rlim in E by lia.
+  destruct (Nat.ltb_spec rlim (length (a_rows a))); [|lia].
+  assert (Et : t' = fst st2 /\ tm' = tw_footer (fst st2) (snd st2) 0 (more_note col (lenZ (a_rows a) - Z.of_nat rlim)) /\ off = 1%nat)
+    by (repeat split; congruence).
+  destruct Et as [-> [-> ->]]. split; [|reflexivity].
+  unfold tw_footer. rewrite Nat.add_0_r, skipn_length.
+  replace (lenZ (a_rows a) - Z.of_nat rlim) with (Z.of_nat (length (a_rows a) - rlim)) by (unfold lenZ; lia).
+  apply set_nth_eq.
+Qed.
